@@ -73,7 +73,7 @@ def run(tier, replay=None):
     base = reps[0]["digests"]
     for k, rep in enumerate(reps[1:], 1):
         for cid, d in rep["digests"].items():
-            for art in ("format", "combined", "error", "graph", "retains", "strict", "fixinc"):
+            for art in ("format", "combined", "error", "graph", "retains", "strict", "fixinc", "dot"):
                 if d[art] != base[cid][art]:
                     add(cid, "differs-between-processes: " + art,
                         "process 0 and process %d produce different %s%s" % (
